@@ -464,4 +464,17 @@ def _ver(v):
     return v
 
 
-PROP = C14()
+from srccall import with_src  # noqa: E402
+
+# translated source: parse_sdist_filename / parse_wheel_filename / parse_tag and Tag.__eq__ / __str__ are proved equal to
+# Fn.parseSdist / parseWheel / parseTag / Tag.eq / Tag.str; compiled patterns are resolved to the tables of Gen.NameTables
+# (measured from the same pattern objects), Version(...) is the scanner primitive, the frozenset is the duplicate-free
+# list of tags in insertion order (PyRx.dedup)
+PROP = with_src(C14(), share=10, functions=["parse_sdist_filename", "parse_wheel_filename", "parse_tag", "Tag.__eq__",
+                                             "Tag.__str__", "canonicalize_name"],
+                module=["PkgProofs.Props.Src.Filenames", "PkgProofs.Props.Src.TagObj", "PkgProofs.Props.Src.Names"],
+                theorems=["Src.parse_sdist_filename_translated", "Src.parse_sdist_filename_eq_model",
+                          "Src.parse_tag_translated", "Src.parse_tag_eq_model",
+                          "Src.parse_wheel_filename_translated", "Src.parse_wheel_filename_eq_model",
+                          "Src.Tag.__eq___translated", "Src.Tag.__eq___eq_fn", "Src.Tag.__str___translated",
+                          "Src.Tag.__str___eq_fn", "Src.canonicalize_name_eq_model"])
